@@ -143,22 +143,25 @@ Definition root_of (r : regfile) : list oid := flat_map (fun s => olist (r s)) a
 
 (* user handles.  An iterator is not reference counted itself; it holds the
    counted reference of its lower-level iterator (a Footer, the closer of the
-   footer's own iterator), its own closer (a Footer) and a BORROWED, uncounted
-   pointer to the segmentStack it was started on (iterator.ss). *)
+   footer's own iterator), its own closer (a Footer) and - the heap iterator
+   of a collection snapshot (iterator.ownsSS, iterator.go:43-46, 100-106) - a
+   counted reference on the segmentStack it was started on (iterator.ss).
+   The iterators of a Footer, the lower-level iterator handed out by
+   optimize() and an iteratorSingle hold no stack (ss = None). *)
 Inductive handle :=
   | HSnap (s : oid)                         (* collection snapshot or child snapshot of one *)
   | HFoot (f : oid)                         (* store snapshot, previous snapshot, child of one *)
   | HIter (ss : option oid) (ll : option oid) (closer : option oid)
-  (* NOT the current code: the iterator of the proposed repair, which owns a
-     counted reference on the segmentStack it was started on *)
-  | HIterO (ss : oid) (ll : option oid) (closer : option oid).
+  (* NOT the current code: the iterator before repair 75e1b64, whose ss is a
+     BORROWED, uncounted pointer to the segmentStack it was started on *)
+  | HIter_pre_fix (ss : option oid) (ll : option oid) (closer : option oid).
 
 Definition hrefs (h : handle) : list oid :=
   match h with
   | HSnap s => [s]
   | HFoot f => [f]
-  | HIter _ ll c => olist ll ++ olist c
-  | HIterO s ll c => s :: olist ll ++ olist c
+  | HIter s ll c => olist s ++ olist ll ++ olist c
+  | HIter_pre_fix _ ll c => olist ll ++ olist c
   end.
 
 Record ctl := mkCtl {
@@ -462,7 +465,16 @@ Inductive iterkind :=
   | IKLower     (* optimize() hands out the lower-level (footer) iterator itself *)
   | IKSkipLL    (* SkipLowerLevel: no lower-level iterator *)
   | IKLLDone    (* lower-level iterator is done at once: closed inside startIterator *)
-  | IKLLError.  (* lowerLevelIter.Current() fails: startIterator returns the error *)
+  | IKLLError   (* lowerLevelIter.Current() fails: startIterator returns the error *)
+  | IKSingleSkipLL  (* SkipLowerLevel and exactly one segment cursor: optimize() hands out
+                       an iteratorSingle, which holds no stack *)
+  | IKSingleLLDone. (* lower-level iterator done at once and exactly one segment cursor *)
+
+(* what the restart of the lower-level iterator in SeekTo comes to *)
+Inductive seekkind :=
+  | SKLower     (* a new lower-level iterator (if the stack has a lower level) *)
+  | SKSkipLL    (* the iterator was started with SkipLowerLevel: none *)
+  | SKLLDone.   (* the new lower-level iterator is done at once: closed inside startIterator *)
 
 Inductive mbranch := BrMerged | BrEmpty | BrError.
 
@@ -470,6 +482,7 @@ Inductive pmode :=
   | PClean                                    (* nothing to persist: s.Snapshot() *)
   | PAppend (probe : bool) (ntop nkid : nat)  (* append ntop segments, nkid per child *)
   | PCompactFull                              (* compaction into a new file *)
+  | PCompactFull_pre_fix                      (* the same before repair 1882285 *)
   | PCompactPartial (k : nat).                (* keep the first k segment locations *)
 
 Inductive op :=
@@ -478,8 +491,9 @@ Inductive op :=
   | OpStoreSnap
   | OpPrev (h : nat) (found : bool) (ntop nk nper : nat)
   | OpIterStart (h : nat) (ik : iterkind)
-  | OpIterSeek (h : nat)
-  | OpIterStartO (h : nat) (ik : iterkind) | OpIterSeekO (h : nat)   (* proposed repair *)
+  | OpIterSeek (h : nat) (sk : seekkind)
+  (* NOT the current code: the iterator before repairs 75e1b64 and 8951c44 *)
+  | OpIterStart_pre_fix (h : nat) (ik : iterkind) | OpIterSeek_pre_fix (h : nat)
   | OpCloseH (h : nat)
   | OpBatch (newchild : bool) | OpDropChildren
   | OpMergerIngest | OpMergerSwap (b : mbranch) | OpMergerHandover
@@ -558,82 +572,104 @@ Definition ll_iter (s : oid) (cont : option oid -> M) : M :=
     | None => cont None
     end).
 
-(* StartIterator on a handle (iterator.go:74, store_footer.go:538) *)
+(* StartIterator on a handle (iterator.go:79-109, store_footer.go:538): the
+   heap iterator that segmentStack.StartIterator returns takes ss.addRef()
+   after optimize() (released last in iterator.Close()); the error return of
+   startIterator closes the lower-level iterator (iterator.go:199-202). *)
 Definition op_iter_start (h : nat) (ik : iterkind) : M :=
   rd (fun st => nth_error (handles st) h) (fun oh =>
     match oh with
     | Some (HFoot f) => addref f ;; pushh (HIter None None (Some f))
     | Some (HSnap s) =>
         match ik with
-        | IKSkipLL => pushh (HIter (Some s) None None)
+        | IKSkipLL => addref s ;; pushh (HIter (Some s) None None)
+        | IKSingleSkipLL => pushh (HIter None None None)
         | _ => ll_iter s (fun ol =>
                  match ol with
-                 | None => pushh (HIter (Some s) None None)
+                 | None => match ik with
+                           | IKSingleLLDone => pushh (HIter None None None)
+                           | _ => addref s ;; pushh (HIter (Some s) None None)
+                           end
                  | Some f =>
                      match ik with
-                     | IKHeap => pushh (HIter (Some s) (Some f) None)
+                     | IKHeap => addref s ;; pushh (HIter (Some s) (Some f) None)
                      | IKLower => pushh (HIter None None (Some f))
-                     | IKLLDone => decref f ;; pushh (HIter (Some s) None None)
-                     | IKLLError => forget f
-                     | IKSkipLL => decref f
+                     | IKLLDone => decref f ;; addref s ;; pushh (HIter (Some s) None None)
+                     | IKSingleLLDone => decref f ;; pushh (HIter None None None)
+                     | IKLLError => decref f
+                     | IKSkipLL | IKSingleSkipLL => decref f
                      end
                  end)
         end
     | _ => ret
     end).
 
-(* iterator.SeekTo restarting (iterator.go:338-350): iter.ss.startIterator
-   through the BORROWED iter.ss (a released stack has lowerLevelSnapshot == nil:
-   its references were cleared), then iterOld.Close() without the closer *)
-Definition op_iter_seek (h : nat) : M :=
+(* iterator.SeekTo restarting (iterator.go:368-385): iter.ss.startIterator
+   through iter.ss, which the iterator keeps alive, with the iterator's own
+   options; then iterOld.Close() without the closer and without the stack
+   reference.  The handle is re-inserted at the END of the handle list (a
+   convention about the handle table that the scripted scenarios follow). *)
+Definition op_iter_seek (h : nat) (sk : seekkind) : M :=
   rd (fun st => nth_error (handles st) h) (fun oh =>
     match oh with
     | Some (HIter (Some s) ll c) =>
-        ll_iter s (fun nl => poph h ;; odecref ll ;; pushh (HIter (Some s) nl c))
+        match sk with
+        | SKSkipLL => poph h ;; odecref ll ;; pushh (HIter (Some s) None c)
+        | _ => ll_iter s (fun nl =>
+                 match sk, nl with
+                 | SKLLDone, Some f =>
+                     decref f ;; poph h ;; odecref ll ;; pushh (HIter (Some s) None c)
+                 | _, _ => poph h ;; odecref ll ;; pushh (HIter (Some s) nl c)
+                 end)
+        end
+    | Some (HIter None ll c) => poph h ;; pushh (HIter None ll c)
     | _ => ret
     end).
 
-(* PROPOSED REPAIR (not the current code): segmentStack.StartIterator takes a
-   reference on the stack for the heap iterator it returns (ss.addRef() after
-   optimize(), released last in iterator.Close()), and the error return of
-   startIterator closes the lower-level iterator. *)
-Definition op_iter_start_o (h : nat) (ik : iterkind) : M :=
+(* NOT the current code: before repairs 75e1b64 and 8951c44 the iterator
+   kept a BORROWED pointer to the stack, and the error return of startIterator
+   dropped the lower-level iterator without Close() *)
+Definition op_iter_start_pre_fix (h : nat) (ik : iterkind) : M :=
   rd (fun st => nth_error (handles st) h) (fun oh =>
     match oh with
+    | Some (HFoot f) => addref f ;; pushh (HIter_pre_fix None None (Some f))
     | Some (HSnap s) =>
         match ik with
-        | IKSkipLL => addref s ;; pushh (HIterO s None None)
+        | IKSkipLL | IKSingleSkipLL => pushh (HIter_pre_fix (Some s) None None)
         | _ => ll_iter s (fun ol =>
                  match ol with
-                 | None => addref s ;; pushh (HIterO s None None)
+                 | None => pushh (HIter_pre_fix (Some s) None None)
                  | Some f =>
                      match ik with
-                     | IKHeap => addref s ;; pushh (HIterO s (Some f) None)
-                     | IKLower => pushh (HIter None None (Some f))
-                     | IKLLDone => decref f ;; addref s ;; pushh (HIterO s None None)
-                     | IKLLError => decref f
-                     | IKSkipLL => decref f
+                     | IKHeap => pushh (HIter_pre_fix (Some s) (Some f) None)
+                     | IKLower => pushh (HIter_pre_fix None None (Some f))
+                     | IKLLDone | IKSingleLLDone => decref f ;; pushh (HIter_pre_fix (Some s) None None)
+                     | IKLLError => forget f
+                     | IKSkipLL | IKSingleSkipLL => decref f
                      end
                  end)
         end
     | _ => ret
     end).
-Definition op_iter_seek_o (h : nat) : M :=
+(* through the BORROWED iter.ss (a released stack has lowerLevelSnapshot == nil:
+   its references were cleared) *)
+Definition op_iter_seek_pre_fix (h : nat) : M :=
   rd (fun st => nth_error (handles st) h) (fun oh =>
     match oh with
-    | Some (HIterO s ll c) =>
-        ll_iter s (fun nl => poph h ;; odecref ll ;; pushh (HIterO s nl c))
+    | Some (HIter_pre_fix (Some s) ll c) =>
+        ll_iter s (fun nl => poph h ;; odecref ll ;; pushh (HIter_pre_fix (Some s) nl c))
     | _ => ret
     end).
 
-(* Close of a handle; iterator.Close closes lowerLevelIter then the closer *)
+(* Close of a handle; iterator.Close closes lowerLevelIter, then the closer, then
+   gives back the stack reference (iterator.go:236-254) *)
 Definition op_close_h (h : nat) : M :=
   rd (fun st => nth_error (handles st) h) (fun oh =>
     match oh with
     | Some (HSnap s) => poph h ;; decref s
     | Some (HFoot f) => poph h ;; decref f
-    | Some (HIter _ ll c) => poph h ;; odecref ll ;; odecref c
-    | Some (HIterO s ll c) => poph h ;; odecref ll ;; odecref c ;; decref s
+    | Some (HIter s ll c) => poph h ;; odecref ll ;; odecref c ;; odecref s
+    | Some (HIter_pre_fix _ ll c) => poph h ;; odecref ll ;; odecref c
     | None => ret
     end).
 
@@ -773,6 +809,25 @@ Fixpoint kids_changed (fk : list oid) (tags : list nat) (st : state) : bool :=
                end
   end.
 
+(* compactMaybe with a full compaction (store_compact.go:34-110): snapshot(),
+   segmentLocs(), compact() into a new file, then removeFileOnClose of the file
+   that was compacted away: slocs[0].mref.fref or - repair 1882285, childfb -
+   when the top-level footer has no segment location, footer.childFileRef() *)
+Definition compact_full (childfb : bool) (f : oid) : M :=
+        addref f ;; addref f ;;
+        newfile (fun fr =>
+        rd tags_pbase (fun nk =>
+        load_kids nk 0 None false 1 fr [] (fun ks =>
+        load_footer true [] 1 fr ks 0 (fun c =>
+          take SFooter ;; put SFooter c ;; decref f ;;
+          decref fr ;;
+          rd (fun st => match refs_of f st with
+                        | m0 :: _ => first_ref m0 st
+                        | [] => if childfb then child_fref (kids_of f st) st else None end)
+             (fun ofr => whenS ofr setrm) ;;
+          addref f ;; decref f ;; decref f ;; decref f ;;
+          addref c ;; put PNext c)))).
+
 (* Store.persist (store.go:92) *)
 Definition op_persist_run (m : pmode) : M :=
   guard (fun st => Nat.eqb (pph (ct st)) 1 && sopen (ct st) && is_some (reg SFooter st))
@@ -795,19 +850,8 @@ Definition op_persist_run (m : pmode) : M :=
           take SFooter ;; put SFooter n ;; decref f ;;
           put PNext n ;;
           decref fr))))))
-    | PCompactFull =>
-        addref f ;; addref f ;;
-        newfile (fun fr =>
-        rd tags_pbase (fun nk =>
-        load_kids nk 0 None false 1 fr [] (fun ks =>
-        load_footer true [] 1 fr ks 0 (fun c =>
-          take SFooter ;; put SFooter c ;; decref f ;;
-          decref fr ;;
-          (* compactMaybe: removeFileOnClose(slocs[0].mref.fref) only if len(slocs) > 0 *)
-          rd (fun st => match refs_of f st with m0 :: _ => first_ref m0 st | [] => None end)
-             (fun ofr => whenS ofr setrm) ;;
-          addref f ;; decref f ;; decref f ;; decref f ;;
-          addref c ;; put PNext c))))
+    | PCompactFull => compact_full true f
+    | PCompactFull_pre_fix => compact_full false f
     | PCompactPartial k =>
         rd (refs_of f) (fun old =>
         if Nat.ltb 0 k && Nat.ltb k (length old) then
@@ -865,9 +909,9 @@ Definition body (o : op) : M :=
   | OpStoreSnap => op_store_snap
   | OpPrev h fd a b c => op_prev h fd a b c
   | OpIterStart h ik => op_iter_start h ik
-  | OpIterSeek h => op_iter_seek h
-  | OpIterStartO h ik => op_iter_start_o h ik
-  | OpIterSeekO h => op_iter_seek_o h
+  | OpIterSeek h sk => op_iter_seek h sk
+  | OpIterStart_pre_fix h ik => op_iter_start_pre_fix h ik
+  | OpIterSeek_pre_fix h => op_iter_seek_pre_fix h
   | OpCloseH h => op_close_h h
   | OpBatch nc => op_batch nc
   | OpDropChildren => op_drop_children
@@ -927,14 +971,22 @@ Definition open_fds (st : state) : list nat :=
 Definition mappings (st : state) : nat :=
   length (filter (fun ob => match o_kind ob, o_cnt ob with KMmap, S _ => true | _, _ => false end) (hp st)).
 
-(* borrowed (uncounted) pointers: iterator.ss and the persister's stackDirtyBase *)
+(* borrowed (uncounted) pointers: the persister's stackDirtyBase and, before
+   repair 75e1b64, iterator.ss *)
 Definition borrowed (st : state) : list oid :=
-  flat_map (fun h => match h with HIter (Some s) _ _ => [s] | _ => [] end) (handles st)
+  flat_map (fun h => match h with HIter_pre_fix (Some s) _ _ => [s] | _ => [] end) (handles st)
   ++ olist (pbase (ct st)).
 Definition borrow_safe (st : state) : Prop := forall o, In o (borrowed st) -> cnt_of (hp st) o > 0.
 Definition borrow_safe_b (st : state) : bool :=
   forallb (fun o => Nat.ltb 0 (cnt_of (hp st) o)) (borrowed st).
 
-(* an operation that never takes the error return of startIterator *)
+(* an operation that does not take the pre-repair error return of startIterator *)
 Definition no_ll_error (o : op) : bool :=
-  match o with OpIterStart _ IKLLError => false | _ => true end.
+  match o with OpIterStart_pre_fix _ IKLLError => false | _ => true end.
+
+(* the operations of the CURRENT code: none of the pre-repair variants *)
+Definition current_code (o : op) : bool :=
+  match o with
+  | OpIterStart_pre_fix _ _ | OpIterSeek_pre_fix _ | OpPersistRun PCompactFull_pre_fix => false
+  | _ => true
+  end.
